@@ -68,7 +68,10 @@ def same(i, m):
         return False
     if i[0] == "err":
         return i[1] == m[1]
-    return i[:9] == m[:9] and float(i[9]) == float(m[9]) and i[10:] == m[10:]
+    # massnumber is a float sum in the implementation: exact below 2**53, rounded above
+    a, b = float(i[9]), float(m[9])
+    mass_ok = a == b if abs(b) < 2 ** 52 else abs(a - b) <= 1e-12 * abs(b)
+    return i[:9] == m[:9] and mass_ok and i[10:] == m[10:]
 
 
 # ---- compositions -------------------------------------------------------------------------------
